@@ -178,8 +178,6 @@ def names_case(ck: Check, camp, values: list[str], cfg: Cfg, model: str, positio
     if c07.nfkc_unstable(res.code, []):
         base["trigger"] = "nfkc"  # known finding D21: two member names that are one identifier after NFKC normalisation
         camp.hit("trigger:nfkc")
-    if model == "pydantic_v2.BaseModel" and cfg.snake and cfg.cap:
-        base["trigger"] = "v2_snake_after_capitalise" if base["trigger"] == "none" else base["trigger"]
     if not cfg.prefix_ok():
         camp.hit("prefix_not_ok:terminates_and_parses_only")
         return
@@ -196,8 +194,12 @@ def names_case(ck: Check, camp, values: list[str], cfg: Cfg, model: str, positio
     except BaseException as e:  # noqa: BLE001
         if isinstance(e, (KeyboardInterrupt, SystemExit)):
             raise
-        ck.fail({**base, "mechanism": "import_error", "error": type(e).__name__}, inp,
-                f"importing the emitted module raised {type(e).__name__}: {str(e)[:200]}")
+        cl = {**base, "mechanism": "import_error", "error": type(e).__name__}
+        if (cl["trigger"] == "none" and model == "pydantic_v2.BaseModel" and cfg.snake and cfg.cap
+                and ((isinstance(e, TypeError) and "already defined" in str(e)) or (isinstance(e, ValueError) and "'mro'" in str(e)))):
+            # known finding C07-ENUM-V2-RELOWER (C09-F2 / C09-F4): Parser.__change_field_name lower-cases the capitalised members again
+            cl["trigger"] = "v2_snake_after_capitalise"
+        ck.fail(cl, inp, f"importing the emitted module raised {type(e).__name__}: {str(e)[:200]}")
         return
     try:
         enums = [c for c in vars(mod).values() if isinstance(c, type) and issubclass(c, pyenum.Enum) and c.__module__ == mod.__name__]
